@@ -33,8 +33,26 @@ def _resolve(expr: ast.AST, defs: dict) -> str:
 
 
 def _r141(ctx: Ctx) -> None:
+    """run_parallel and the helpers of the same module it calls (the split may live in a helper)."""
     m = ctx.model
     mi, fn = m.func('panqec.cli', 'run_parallel')
+    fns = [fn]
+    for c_ in ast.walk(fn):
+        if isinstance(c_, ast.Call) and isinstance(c_.func, ast.Name):
+            try:
+                _, f2 = m.func('panqec.cli', c_.func.id)
+            except Exception:
+                continue
+            if f2 not in fns:
+                fns.append(f2)
+    res = [_r141_fn(ctx, mi, f_) for f_ in fns]
+    site = site_of(mi, fn)
+    ctx.need(any(q for q, _ in res), 'R14.1', site, 'no quotient (A // B, divmod) found in run_parallel or its helpers')
+    found = sum(f for _, f in res)
+    ctx.need(found >= 2, 'R14.1', site, f'only {found} quotient/remainder pairs recognised in run_parallel and its helpers')
+
+
+def _r141_fn(ctx: Ctx, mi, fn):
     site = site_of(mi, fn)
     stmts = [n for n in ast.walk(fn) if isinstance(n, (ast.Assign, ast.AugAssign))]
     # quotient definitions  v = A // B
@@ -70,7 +88,8 @@ def _r141(ctx: Ctx) -> None:
     for n in ast.walk(fn):
         if isinstance(n, ast.Name) and isinstance(n.ctx, ast.Store):
             stores[n.id] = stores.get(n.id, 0) + 1
-    ctx.need(quot, 'R14.1', site, 'no quotient (A // B) found in run_parallel')
+    if not quot:
+        return False, 0
     found = 0
     for n in stmts:
         rem = None
@@ -113,12 +132,14 @@ def _r141(ctx: Ctx) -> None:
             gdefs = [s_.value for s_ in stmts if isinstance(s_, ast.Assign) and len(s_.targets) == 1
                      and isinstance(s_.targets[0], ast.Name) and s_.targets[0].id == gtest.id]
             gtest = gdefs[0] if len(gdefs) == 1 else gtest
+        # `== last` or `>= last` (indices beyond the last one are clamped to it); which shares the test selects for
+        # concrete sizes is decided by the bounded evaluation R14.3
         ok_g = isinstance(g, ast.If) and isinstance(gtest, ast.Compare) and len(gtest.ops) == 1 \
-            and isinstance(gtest.ops[0], ast.Eq)
+            and isinstance(gtest.ops[0], (ast.Eq, ast.GtE, ast.LtE))
         ctx.ob('R14.1', site_of(mi, g if g is not None else n), f'run_parallel: remainder of `{tgt}` goes to exactly one share',
-               ok_g, f'{norm_stmt(n)} is not guarded by an equality test selecting a single share',
+               ok_g, f'{norm_stmt(n)} is not guarded by a test selecting a single share',
                key=f'run_parallel|one-share[{tgt}]', facts=ast.unparse(g.test) if isinstance(g, ast.If) else None)
-    ctx.need(found >= 2, 'R14.1', site, f'only {found} quotient/remainder pairs recognised in run_parallel')
+    return True, found
 
 
 def _self_consistent_update(q, n, rem, between) -> bool:
